@@ -86,6 +86,7 @@ type Check struct {
 	// Post is called with all traces before validation (e.g. to derive follow-up cases). Optional.
 	Assumptions []string
 	NeedRace    bool
+	NeedCLI     bool // the check runs the gophersat executable: build it from /repo (no tag)
 	// Extra runs after the standard pipeline (schedule replay, race runs, ...); it may add
 	// violations, notes and coverage.
 	Extra func(env *Env, res *Result) error
